@@ -76,6 +76,13 @@ def lexer_sections(ctx, pid):
         multi = [p for p in gcls().comments if len(p[0]) != 1]
         s.obl(f"pvl.grammar.{gcls.__name__}:multi-character-comments-are-the-supported-pair-only", _D if all(p == ("/*", "*/") for p in multi) else _F,
               "ground", detail=str(multi))
+        import pvl.lexer as _L
+        ci = _L._prepare_comment_tuples(gcls().comments)
+        ok = (set(ci["multi_comments"]) == set(multi) and ci["single_comments"] == {p[0]: p[1] for p in gcls().comments if len(p[0]) == 1}
+              and ci["multi_chars"] == {ch for p in multi for part in p for ch in part} and (not ci["multi_chars"] or len(ci["multi_comments"]) > 0)
+              and ci["chars"] == set(ci["single_comments"]) | ci["multi_chars"])
+        s.obl(f"pvl.lexer._prepare_comment_tuples({gcls.__name__}.comments):tables-consistent-with-the-grammar", _D if ok else _F, "ground",
+              detail=repr(ci)[:200])
     s.assumptions += LEX_ASSUMPTIONS
     s.seconds = time.time() - t0
     # run-time evaluation of the same contracts (CPython cross-check of the modelling; failing-input search)
@@ -170,7 +177,8 @@ def encoder_sections(ctx, pid):
                      "tests datetime before date; ODLEncoder.encode_assignment writes a statement only for a name of at most 30 "
                      "characters that is an (pointer / namespace) identifier; encode_aggregation_block writes '<begin keyword> = <name>', the body "
                      "one level deeper and the end statement of the same family (with the name when aggregation_end); PVLEncoder.encode "
-                     "returns only texts whose characters are all allowed by the grammar")
+                     "returns only texts whose characters are all allowed by the grammar; ODLEncoder.encode_sequence writes only non-empty, at most "
+                     "two-dimensional sequences of scalars; sequences / sets / units are their content between the dialect's delimiters")
     t0 = time.time()
     contracts = ce.quoting_contracts()
     verify_contracts(s, contracts, EncTheory, ["pvl.encoder"], jobs=ctx.jobs)
@@ -180,6 +188,9 @@ def encoder_sections(ctx, pid):
     verify_contracts(s, ce.sweep_contracts(), EncTheory, ["pvl.encoder"], jobs=2)
     # begin / end statements of a block
     verify_contracts(s, ce.block_contracts(), EncTheory, ["pvl.encoder"], jobs=3)
+    # ODL sequence restrictions (nested search loops over the elements) and the text wiring of sequences / sets / units
+    verify_contracts(s, ce.collection_contracts(), EncTheory, ["pvl.encoder"], jobs=2)
+    verify_contracts(s, ce.wiring_contracts(), EncTheory, ["pvl.encoder"], jobs=2)
     s.assumptions += ENC_ASSUMPTIONS
     s.seconds = time.time() - t0
     r = Section("encoder-quoting-runtime-contracts", "bounded", bounded=True,
